@@ -331,6 +331,9 @@ func (s *Sim) execOp(i int) {
 	if pre {
 		cancel()
 	}
+	if st.gate != nil {
+		<-st.gate
+	}
 	inv := Rec{Kind: "inv", Op: i + 1, S: op.Kind}
 	if pre {
 		inv.B = true
